@@ -249,10 +249,11 @@ def tabulate_experiments(block: Optional[Block] = None,
         proportion_list = list()
         levels: List[List[str]] = list()
 
-        if trials is None:
-            trials = list(range(0, len(e[list(e.keys())[0]])))
+        selected_trials = trials
+        if selected_trials is None:
+            selected_trials = list(range(0, len(e[list(e.keys())[0]])))
 
-        num_trials = len(trials)
+        num_trials = len(selected_trials)
 
         # initialize table
         for f in factors:
@@ -274,7 +275,7 @@ def tabulate_experiments(block: Optional[Block] = None,
 
             # compute frequency
             frequency = 0
-            for trial in trials:
+            for trial in selected_trials:
                 valid_condition = True
                 for idx, factor in enumerate(tabulation.keys()):
                     if e[factor][trial] != element[idx]:
